@@ -40,12 +40,13 @@ def track_surface(face_lens, op):
     elif k == "q3":
         tri_all(); L = [4] * (3 * len(L))
     elif k == "s6":
-        tri_all(); L = [3] * (len(L) * 6 ** op[1])
+        if op[1] > 0:
+            tri_all(); L = [3] * (len(L) * 6 ** op[1])
     return L
 
 
-def surface_ops(rng, F, max_ops, budget_faces):
-    lens = [len(f) for f in F]
+def surface_ops(rng, F, max_ops, budget_faces, lens=None, want_lens=False):
+    lens = [len(f) for f in F] if lens is None else list(lens)
     ops = []
     nops = rng.randint(1, max_ops)
     for _ in range(nops):
@@ -57,16 +58,16 @@ def surface_ops(rng, F, max_ops, budget_faces):
                 big = [i for i, n in enumerate(lens) if n > 3]
                 if big: op = [k, rng.choice(big)]
         elif k == "tri": op = ["tri"]
-        elif k == "loop": op = ["loop", 1 if rng.random() < 0.75 else 2]
+        elif k == "loop": op = ["loop", rng.choice([1, 1, 1, 1, 1, 1, 2, 2, 0])]
         elif k == "q3": op = ["q3"]
-        else: op = ["s6", 1 if rng.random() < 0.8 else 2]
+        else: op = ["s6", rng.choice([1, 1, 1, 1, 1, 1, 1, 2, 0])]
         new = track_surface(lens, op)
         if len(new) > budget_faces:
             continue
         ops.append(op); lens = new
     if not ops:
-        ops = [["fan", 0]]
-    return ops
+        ops = [["fan", 0]]; lens = track_surface(lens, ops[0])
+    return (ops, lens) if want_lens else ops
 
 
 def regular_complex(F):
@@ -109,7 +110,24 @@ def admissible(case):
     return all(a != b for a, b in case["E"]) and len({tuple(sorted(e)) for e in case["E"]}) == len(case["E"])
 
 
-def surf_case(rng, max_faces=14, max_ops=3, budget_faces=400, tri_only=False, flat=None):
+INT_COORDS = ("pyint", "int64", "int32", "intlist", "inttuple")
+
+
+def set_rep(rng, case):
+    """INPUT REPRESENTATION: integer-valued coordinates (Python ints, int64 / int32 rows, int lists / tuples), float32 rows;
+    elements as lists, tuples, numpy rows, numpy int32 scalars.  Integer families get exactly integral coordinates
+    (all generator coordinates are multiples of 1/2048)."""
+    co = rng.choice(list(INT_COORDS) + ["float32", "float32", "float"])
+    el = rng.choice(["list", "tuple", "nprow", "npint32"])
+    if co in INT_COORDS:
+        V = [[c * 2048 for c in v] for v in case["V"]]
+        assert all(float(c).is_integer() for v in V for c in v)
+        case["V"] = [[float(int(c)) for c in v] for v in V]
+    case["rep"] = {"coords": co, "elems": el}
+    return case
+
+
+def surf_case(rng, max_faces=14, max_ops=3, budget_faces=400, tri_only=False, flat=None, hist=0.25, reps=0.25):
     while True:
         s = G.random_surface(rng, max_faces=max_faces, tri_only=tri_only)
         if regular_complex(s["F"]) or rng.random() < 0.1: break     # a few non-regular inputs stay in (known open finding)
@@ -132,9 +150,19 @@ def surf_case(rng, max_faces=14, max_ops=3, budget_faces=400, tri_only=False, fl
     # the second refinement level, which the order-free comparison (position bijection) cannot tell apart
     V = [[v[0] + rng.randint(-16, 16) / 2048, v[1] + rng.randint(-16, 16) / 2048,
           v[2] + (0 if tag == "flat" else rng.randint(-16, 16) / 2048)] for v in V]
-    ops = surface_ops(rng, F, max_ops, budget_faces)
+    ops, lens = surface_ops(rng, F, max_ops, budget_faces, want_lens=True)
     case = {"t": "surf", "V": V, "F": F, "ops": ops, "pre": rng.random() < 0.5, "tag": tag}
-    if rng.random() < 0.05:
+    if rng.random() < hist:
+        # HISTORY: further editing blocks on the same mesh object (the result of a block is the input of the next)
+        blocks = []
+        for _ in range(rng.randint(1, 2)):
+            b, lens = surface_ops(rng, F, 2, budget_faces, lens=lens, want_lens=True)
+            blocks.append(b)
+        case["blocks"] = blocks; case["probe_between"] = rng.random() < 0.6
+        case["reuse_editor"] = rng.random() < 0.5        # the same SurfaceSubdivision object serves all the blocks
+    if rng.random() < reps:
+        set_rep(rng, case)
+    if "blocks" not in case and rng.random() < 0.05:
         # an id that does not exist: the code must raise IndexError, and still not leave the input half-updated
         case["ops"] = ops + [[rng.choice(["fan", "tf"]), BAD_ID]]; case["bad"] = len(ops)
     return case
@@ -145,10 +173,14 @@ def sdb_case(rng):
     while True:
         s = G.random_surface(rng, max_faces=16, tri_only=True, disk=rng.random() < 0.7)
         if regular_complex(s["F"]): break
-    return {"t": "surf", "V": s["V"], "F": s["F"], "ops": [["sdb"]], "pre": rng.random() < 0.5, "tag": s["tag"] + "/sdb"}
+    case = {"t": "surf", "V": s["V"], "F": s["F"], "ops": [["sdb"]], "pre": rng.random() < 0.5, "tag": s["tag"] + "/sdb"}
+    if rng.random() < 0.4:
+        # HISTORY: the mesh returned by split_double_boundary_edges_triangles goes through an editing block
+        case["blocks"] = [[rng.choice([["tri"], ["loop", 1], ["q3"]])]]; case["probe_between"] = rng.random() < 0.6
+    return case
 
 
-def vol_case(rng, max_cells=12, max_ops=3, orient=None):
+def vol_case(rng, max_cells=12, max_ops=3, orient=None, hist=0.25, reps=0.25):
     orient = orient or rng.choice(["positive", "positive", "negative", "mixed"])
     s = G.random_tets(rng, max_cells=max_cells, orient=orient)
     V, C = s["V"], s["C"]
@@ -167,7 +199,22 @@ def vol_case(rng, max_cells=12, max_ops=3, orient=None):
             # ids of faces existing *now* in the raw face list: the prepared ones + 2 per earlier face split
             ops.append(["fsp", rng.randrange(nF)]); nF += 2; nC += 2   # (cells: +2 or +4; only a lower bound is needed)
     case = {"t": "vol", "V": V, "C": C, "ops": ops, "pre": rng.random() < 0.5, "tag": s["tag"]}
-    if rng.random() < 0.05:
+    if rng.random() < hist:
+        blocks = []
+        for _ in range(rng.randint(1, 2)):
+            b = []
+            for _ in range(rng.randint(1, 2)):
+                if rng.random() < 0.5:
+                    b.append(["cfan", rng.randrange(nC)]); nC += 3
+                else:
+                    b.append(["fsp", rng.randrange(nF)]); nF += 2; nC += 2
+            blocks.append(b)
+            nF += 0   # (faces completed on exit only add ids; the ids used stay valid)
+        case["blocks"] = blocks; case["probe_between"] = rng.random() < 0.6
+        case["reuse_editor"] = rng.random() < 0.5
+    if rng.random() < reps:
+        set_rep(rng, case)
+    if "blocks" not in case and rng.random() < 0.05:
         case["ops"] = ops + [[rng.choice(["cfan", "fsp"]), BAD_ID]]; case["bad"] = len(ops)
     return case
 
@@ -179,7 +226,14 @@ def poly_case(rng, max_v=10, max_ops=4):
     for _ in range(rng.randint(1, max_ops)):
         ops.append(["es", rng.randrange(nE)]); nE += 1
     case = {"t": "poly", "V": s["V"], "E": s["E"], "ops": ops, "pre": rng.random() < 0.5, "tag": s["tag"]}
-    if rng.random() < 0.05:
+    if rng.random() < 0.25:
+        b = []
+        for _ in range(rng.randint(1, 2)):
+            b.append(["es", rng.randrange(nE)]); nE += 1
+        case["blocks"] = [b]; case["probe_between"] = True      # connectivity queried between two split_edge calls
+    if rng.random() < 0.25:
+        set_rep(rng, case)
+    if "blocks" not in case and rng.random() < 0.05:
         case["ops"] = ops + [["es", BAD_ID]]; case["bad"] = len(ops)
     return case
 
